@@ -7,7 +7,7 @@ SPEC = {
                           "good_blockfetch", "reassembly_network1_blockfetch", "reassembly_network2_blockfetch",
                           "good_chainsync", "reassembly_network1_chainsync", "reassembly_network2_chainsync",
                           "good_lenCodec", "reassembly_network1_lenCodec"],
-    "streams": [{"name": "reasm", "quick": 400, "thorough": 12000, "timeout": 3000}],
+    "streams": [{"name": "reasm", "quick": 400, "thorough": 8000, "timeout": 3000}],
     "rule": "a case = one random sequence of 1..8 real protocol messages of one mini-protocol (network1: handshake n2n/n2c, chainsync "
             "header/block content, blockfetch, txsubmission, keepalive, peersharing, local state query, local tx submission, tx monitor; "
             "network2 AnyMessage: handshake, keepalive, chainsync, peersharing, blockfetch, txsubmission, leios-notify, leios-fetch; "
@@ -45,5 +45,9 @@ SPEC = {
                    "peer_sharing/query set. Self-tests run: try_decode_message dropping the bytes after a decoded message (caught: "
                    "reassembly-network1 VIOLATION for every protocol, concrete replays); try_decode_message treating every error as "
                    "need-more (caught as model/implementation disagreement on the malformed ops: impl blocks, model errors; replay = the "
-                   "shrunk case); drain(0..pos) -> split_off (quiet). `blocked` is decided without a clock (FIFO marker chunk).",
+                   "shrunk case); drain(0..pos) -> split_off (quiet). `blocked` is decided without a clock (FIFO marker chunk). "
+                   "A thorough run on the integrated tree found a model infidelity (not a code defect): on a buffer that does not start "
+                   "with an array head the local-tx-submission decoder tries the whole buffer as UTF-8 text (the node's plain-string "
+                   "rejection) and returns RejectTx; the stream's decoder for that protocol (ltxDec) now transcribes this, the case is in "
+                   "corpus/C21/reasm-localtxsubmission-plain-string.ops.",
 }
